@@ -121,8 +121,10 @@ func runC12(c *Ctx, n, t int, tag string, plan c12Plan, fail func(kind, what str
 			return "undecodable", ""
 		}
 		data := ""
-		if string(res.Event) == "event_dkg_commit_confirm_received" && len(res.ResultMsgs) > 0 {
-			data = string(res.ResultMsgs[0].Data) // commitments are deterministic; deals are re-encrypted
+		if (string(res.Event) == "event_dkg_commit_confirm_received" || string(res.Event) == "event_dkg_response_confirm_received") && len(res.ResultMsgs) > 0 {
+			// commitments and (signed) responses are deterministic - the round's randomness is a
+			// seeded stream; deals are re-encrypted with fresh ephemeral keys
+			data = string(res.ResultMsgs[0].Data)
 		}
 		return string(res.Event), data
 	}
